@@ -16,6 +16,7 @@ import (
 	"sort"
 	"strings"
 	"sync"
+	"sync/atomic"
 	"unsafe"
 
 	"verif/harness/adapt/fields"
@@ -64,6 +65,8 @@ func rec(c *mon.Ctx, id string, fn func() []byte) {
 	tr.put(id, out)
 }
 
+var fenceSeq atomic.Int64
+
 func rawBytes[E any](v []E) []byte {
 	if len(v) == 0 {
 		return nil
@@ -74,18 +77,28 @@ func rawBytes[E any](v []E) []byte {
 
 // fenced returns a slice of n elements placed flush against a guard page (at the end or at the start),
 // initialised from src.
+//
+// Every third buffer is instead placed 1..3 elements after the start of the region: buffers flush against a page
+// are 64-byte aligned whenever their length is a multiple of 16 words, which is exactly what the Go allocator
+// gives to the library's own tests; vector kernels must also work on sub-slices (aligned-move instructions fault
+// on them, which kills the process and shows as a crash of the default build only).
 func fenced[E any](regs *[]*efence.Region, src []E, atEnd bool) []E {
 	var z E
 	sz := int(unsafe.Sizeof(z))
-	r, err := efence.New(len(src)*sz + 64)
+	r, err := efence.New(len(src)*sz + 64 + 3*sz)
 	if err != nil {
 		panic(err)
 	}
 	*regs = append(*regs, r)
 	var b []byte
-	if atEnd {
+	seq := int(fenceSeq.Add(1))
+	switch {
+	case seq%3 == 0:
+		k := 1 + (seq/3)%3
+		b = r.AtStart((len(src) + k) * sz)[k*sz:]
+	case atEnd:
 		b = r.AtEnd(len(src) * sz)
-	} else {
+	default:
 		b = r.AtStart(len(src) * sz)
 	}
 	s := efence.Slice[E](b, len(src))
